@@ -1,6 +1,7 @@
 package main
 
 import (
+	"golang.org/x/tools/go/ssa"
 	"fmt"
 	"go/constant"
 	"go/token"
@@ -386,6 +387,25 @@ func (e *Env) ident(name string) (Val, error) {
 					return e.u().LoadStruct(e.st, pv.One(), pt.Elem()), nil
 				}
 				return e.u().LoadAddr(e.st, Addr{Kind: ACell, T: pt.Elem(), Ref: pv.One()}), nil
+			}
+		}
+	}
+	if e.fr != nil {
+		base := name
+		if i := strings.Index(name, "#"); i >= 0 {
+			base = name[:i]
+		}
+		// a captured / address-taken local (a heap cell) that does not exist on this path: an arbitrary value
+		if _, isStack := e.fr.localKeys[base]; !isStack {
+			for _, b := range e.fr.fn.Blocks {
+				for _, ins := range b.Instrs {
+					if al, ok := ins.(*ssa.Alloc); ok && al.Heap && al.Comment == base {
+						et := al.Type().Underlying().(*types.Pointer).Elem()
+						if k := classify(et); k != KStruct && k != KArray && k != KOpaque {
+							return e.u().FreshVal("dead."+base, et), nil
+						}
+					}
+				}
 			}
 		}
 	}
@@ -1480,7 +1500,8 @@ func (e *Env) callExpr(t ECall) (Val, error) {
 		g := And(Neq(ref, IntLit(0)), Ge(App("root", SInt, ref), IntLit(1)), Le(App("root", SInt, ref), e.st.Alloc))
 		if et, ok := ptrStructElem(v.T); ok {
 			// … and it is an object of the pointed-to struct type (references are untyped integers in the model)
-			g = And(g, Eq(App("dyn", SInt, ref), IntLit(int64(structTypeID(et)))))
+			// … a whole object (not a struct embedded in another object) of that type
+			g = And(g, Eq(App("dyn", SInt, ref), IntLit(int64(structTypeID(et)))), Eq(App("root", SInt, ref), ref))
 		}
 		return scalar(boolT, g), nil
 	case "isfresh": // allocated after the pre-state
